@@ -44,7 +44,7 @@ theorem approxSub_inv {o : FOps} (hl : Lawful o) (f : Fn) (ubErr : Rat) (bps : L
   · split at h
     · simp at h
     · rename_i ub hub
-      exact subLoop_inv hl f ubErr _ ub (hb ub (List.mem_of_getElem? hub)) fuel fuel _ _ _ _ hinv h
+      exact subLoop_inv hl f ubErr _ ub (hb ub (List.mem_of_getElem? hub)) _ fuel _ _ _ _ hinv h
 
 theorem subintervals_inv {o : FOps} (hl : Lawful o) (f : Fn) (ubErr : Rat) (bps : List Rat)
     (hb : ∀ b ∈ bps, Fx o b) (fuel : Nat) : ∀ (n i : Nat) (pl r : PL), Inv o pl →
